@@ -27,6 +27,12 @@ def parseOuts (j : Json) : Except String (List (String × Option Ty)) := do
 
 def noSem : List Payload → String → Option Payload := fun _ _ => none
 
+/-- The three observed facts; the model combines them (`Traits.skips`). Older requests carry only
+    `hasSubgraph`. -/
+def parseTraits (j : Json) : Traits :=
+  let b := fun (k : String) => (j.getObjValAs? Bool k).toOption.getD false
+  { sampling := b "sampling", subgraph := b "hasSubgraph", inlineControlFlow := b "inlineControlFlow" }
+
 def parseStep (j : Json) : Except String Step := do
   let k ← j.getObjValAs? String "k"
   match k with
@@ -37,11 +43,11 @@ def parseStep (j : Json) : Except String Step := do
   | "standard" =>
     return .standard (← parseSel (← j.getObjValAs? String "sel")) (← parseRefs (← j.getObjVal? "inputs"))
       (← j.getObjValAs? (List String) "inNames") (← parseOuts (← j.getObjVal? "outs"))
-      (← j.getObjValAs? Bool "hasSubgraph") (← parseBackend (← j.getObjVal? "backend")) noSem
+      (parseTraits j) (← parseBackend (← j.getObjVal? "backend")) noSem
   | "inline" =>
     return .inline (← parseSel (← j.getObjValAs? String "sel")) (← parseRefs (← j.getObjVal? "inputs"))
       (← j.getObjValAs? (List String) "inNames") (← j.getObjValAs? (List String) "gnames")
-      (← parseOuts (← j.getObjVal? "outs")) (← parseBackend (← j.getObjVal? "backend")) noSem
+      (← parseOuts (← j.getObjVal? "outs")) (parseTraits j) (← parseBackend (← j.getObjVal? "backend")) noSem
   | _ => throw s!"bad step {k}"
 
 def nodeJson (n : NodeRec) : Json :=
